@@ -29,6 +29,11 @@ Vals(w) == CASE w = 1 -> {0, 1, 2, 3, 127, 128, 255}
              [] w = 3 -> {0, 1, 255, 65535, 65536, 8388607, 16777215}
              [] w = 4 -> {0, 1, 2, 15, 16, 17, 52, 4096, 65535, 65536, 16777216, 2147483647, -2147483647, -2, -1}
 
+\* t = hunk type, n = the value of its length / count field, m = how many longs (or relocation offsets, or symbols) really follow,
+\* term = whether the terminating 0 of a reloc32 / symbol block is there
+AmigaHunks == [t : {"code", "data", "bss", "reloc32", "symbol", "debug", "name", "unit", "bad"},
+               n : {0, 1, 2, 1073741823, 1073741825, -1}, m : {0, 1, 2}, term : BOOLEAN]
+
 Init ==
   \/ \E f \in ElfHeader : \E v \in Vals(f.w) : c = [k |-> "field", fmt |-> "elf", part |-> "header", idx |-> 0, f |-> f, v |-> v]
   \/ \E i \in 0..5 : \E f \in ElfSection : \E v \in Vals(f.w) : c = [k |-> "field", fmt |-> "elf", part |-> "section", idx |-> i, f |-> f, v |-> v]
@@ -40,6 +45,15 @@ Init ==
   \/ \E fmt \in {"hex", "srec", "ti_txt"} : \E m \in {"count_ff", "count_00", "bad_digit", "no_newline", "long_line", "empty_line", "type_9", "addr_ffff", "dup_eof", "lowercase", "crlf", "huge_file"} :
         c = [k |-> "text", fmt |-> fmt, m |-> m]
   \/ \E fmt \in {"macho", "amiga", "elf", "uf2"} : \E n \in 0..39 : c = [k |-> "flip", fmt |-> fmt, n |-> n]
+
+  \* Mach-O and Amiga hunk files: every 32-bit word of the header / first load command / first hunks at the boundary values
+  \* (byte order of the format), so that every count, size and offset field of those structures is covered
+  \/ \E fmt \in {"macho", "amiga"} : \E i \in 0..(IF fmt = "macho" THEN 47 ELSE 15) : \E v \in Vals(4) : c = [k |-> "word", fmt |-> fmt, idx |-> i, v |-> v]
+  \* Amiga hunk files built from the hunk grammar (the writer only emits header, code, end): a header, a code hunk,
+  \* then one hunk of every type with its length / count field at the boundary values, declared and present lengths
+  \* independent, followed by nothing, an end hunk or another code hunk; and each of these cut after every long
+  \/ \E h \in AmigaHunks : \E tail \in {"none", "end", "code"} : c = [k |-> "hunks", fmt |-> "amiga", h |-> h, tail |-> tail, cut |-> -1]
+  \/ \E h \in {x \in AmigaHunks : x.n \in {1, 2} /\ x.m = x.n} : \E cut \in 0..14 : c = [k |-> "hunks", fmt |-> "amiga", h |-> h, tail |-> "end", cut |-> cut]
 
 Next == FALSE /\ UNCHANGED c
 Emit == PrintT("CASE " \o ToJson(c))
